@@ -14,8 +14,8 @@ CLAIMED = {
          "Generated-input search with execution as oracle: every emitted virtual-call wrapper is run on the x86-64 host against a table of recording stubs (two different tables per wrapper) and must make exactly one call into its slot with receiver and arguments in order and pass the result through; slot offsets and table sizes are judged by rustc on both widths; contradicting #[index]/#[size] must be rejected. Exploration.",
          "Execution on the host uses ABI strings normalised to C; integer and pointer arguments only; up to 10 integer-class arguments observed (6 registers + 4 stack slots).",
          "DESIGN.md §4 C04"),
- "C05": ("proptest: executed address-bound wrappers against recording trampolines planted (mmap MAP_FIXED_NOREPLACE) at the declared addresses; L0 rejection cases; declared parameter order (syn)",
-         "Generated-input search with execution as oracle: each emitted method is called once on the host; the stub planted at the literal address records id, receiver, arguments (registers and stack) and supplies the return value; a driver binding with the declared return type must compile. Functions without address / with unresolvable parameter or return type / with #[index] must be rejected; a receiver written anywhere among the parameters is rejected or emitted first with the declared parameters in declared order (syn). Exploration.",
+ "C05": ("proptest: executed address-bound wrappers against recording trampolines planted (mmap MAP_FIXED_NOREPLACE) at the declared addresses; L0 rejection cases; declared parameter order and attributes on the impl block (syn)",
+         "Generated-input search with execution as oracle: each emitted method is called once on the host; the stub planted at the literal address records id, receiver, arguments (registers and stack) and supplies the return value; a driver binding with the declared return type must compile. Functions without address / with unresolvable parameter or return type / with #[index] must be rejected; a receiver written anywhere among the parameters is rejected or emitted first with the declared parameters in declared order (syn); attributes written on the impl block itself never replace a function's own address or convention. Exploration.",
          "Same execution assumptions as C04; addresses are drawn from ranges that can be mapped on the host.",
          "DESIGN.md §4 C05"),
  "C06": ("proptest: hierarchy generator with single-slot mutations of a compatible prefix (verdict, L0), syn + rustc offset probes for the shared/own vftable pointer on both widths, executed vftable() accessor (L3)",
